@@ -30,7 +30,7 @@ CHECKS["C06"] = dict(
 CHECKS["C07"] = dict(
     category="proof",
     text="estimate_error_norm of both estimators is verified to return norm^(-1/(q+1)) of the calibrated residual/state standard deviation scaled by dt^n/n! with reference max(|u_prev|,|u_new|), with cached or re-evaluated linearisation exactly as configured, and to be independent of the previous covariance and of backward models; both error norms are verified against their definitions.",
-    note="quantities are characterised by squares and signs (std^2 = diag cov, sigma^2 K = |w|^2) rather than closed-form roots; error norm is abstract inside the estimator contract; invariance under the base scale follows from the homogeneity of the stated formulas (not separately machine-checked); n! is taken from the repo's own factorial (float literal)",
+    note="quantities are characterised by squares and signs (std^2 = diag cov, sigma^2 K = |w|^2) rather than closed-form roots; error norm is abstract inside the estimator contract; invariance of the local error quantity under the base scale is part of the machine-checked scale-equivariance lemma (contracts/lemmas.py); instances include second-order ODEs, error_per_unit_step, derivative_idx >= 1, pytree-structured states and a shared error value against a d-dimensional reference (isotropic); n! is taken from the repo's own factorial (float literal)",
     design_ref="DESIGN.md section 4 (C07)",
 )
 CHECKS["C05"] = dict(
@@ -75,7 +75,7 @@ CHECKS["C18"] = dict(
 CHECKS["C19"] = dict(
     category="proof",
     text="lstsq_constrained_gauss_newton: loop rule on the real body for all iteration counts -- every exit is justified by one of the three documented reasons, statistics are truthful, the displacement from the mean lies in range(L L^T J^T) of the last linearisation (singular L included); for affine constraints one iteration of the real body lands on the Gaussian conditional mean and a second does not move; taylor_point_maximum_a_posteriori starts at and weights by the given rv.",
-    note="(D,m) enumerated; lstsq_svd is a kernel axiom (normal equations + row space); feasibility needs a ghost inverse of the innovation covariance (full row rank); convergence within the budget for nonlinear constraints is not claimed; use inside DenseResidual.linearize / jetexpand_residual is by composition with C02/C11 contracts",
+    note="(D,m) enumerated; lstsq_svd is a kernel axiom (normal equations + row space); feasibility needs a ghost inverse of the innovation covariance (full row rank); convergence within the budget for nonlinear constraints is not claimed; requires tol < 1 (the initial unit increment must not look converged); the 'no more progress' exit only counts after at least one iteration; use inside DenseResidual.linearize / jetexpand_residual is by composition with C02/C11 contracts",
     design_ref="DESIGN.md section 4 (C19)",
 )
 
